@@ -571,6 +571,9 @@ step_harness!(fdl_step_await_status, 7, |f0, f, phy, now, apps, _n| {
     let ts = f0.p.address;
     let address = match f0.state { State::AwaitStatusResponse { address } => address, _ => unreachable!() };
     assert!(apps[0].tx_calls + apps[1].tx_calls == 0 && removed() == 0 && sent_data(phy).is_none());
+    // C12.sweep: the answer to a GAP poll (or its absence) never moves the sweep position - only the token pass of the
+    // next visit does, so no address is skipped
+    assert!(f.gap_state == f0.gap_state);
     let busy0 = (phy.transmitting && phy.tx_count == 0) || f0.last_bus_activity.map(|l| now <= l).unwrap_or(false);
     if !busy0 && phy.n_rx >= 1 {
         assert!(phy.delivered == 1 && phy.tx_count == 0);
